@@ -134,7 +134,7 @@ class NightExec:
         if sf is not None:
             seams.SOLVER.reset(fault_at=sf["at"], fault_kind=sf["kind"], record_args=bool(sf.get("record", True)))
         elif seams.SOLVER.installed:
-            seams.SOLVER.reset(record_args=bool(op.get("record_fits")))
+            seams.SOLVER.reset(record_args=bool(op.get("record_fits")), ref_at=op.get("solver_ref_at"))
         pf = op.get("put_fault")
         self.bucket.put_attempts = 0
         if pf is not None:
@@ -147,12 +147,13 @@ class NightExec:
                        extra_feed_cols=op.get("extra_feed_cols"))
         rec.extra["op"] = op
         rec.extra["mon"] = monitors.take()
+        rec.extra["fits"] = list(seams.SOLVER.calls) if seams.SOLVER.installed else []
         self.stats.polls += 1
         if rec.ok:
             self.stats.polls_ok += 1
         else:
             self.stats.repo_errors[rec.exc_type] += 1
-            if "NotEnoughSubunits" not in rec.exc_type:
+            if "NotEnoughSubunits" not in rec.exc_type and "injected" not in (rec.exc_msg or "") and "Unable to save content" not in (rec.exc_msg or ""):
                 import re as _re
                 self.stats.extra["exc: " + rec.exc_type.split(".")[-1] + ": " + _re.sub(r"[0-9]+", "N", (rec.exc_msg or ""))[:90]] += 1
         return rec
@@ -174,6 +175,8 @@ class NightExec:
                 self.shared_args = None if op.get("lose_args", True) else self.shared_args
                 self.stats.faults["runner_crash_restart"] += 1
             elif k == "poll":
+                if hasattr(self.checker, "should_skip") and self.checker.should_skip(self, op):
+                    continue
                 rec = self.poll(op)
                 self.records.append(rec)
                 self.log.update(json.dumps(rec.summary(), sort_keys=True).encode())
